@@ -276,7 +276,11 @@ func (ef *errflow) RunErrDrop(fns []*ssa.Function) {
 					if ev == nil {
 						ef.r.Fail("errdrop", key, pos, "error result of "+what+" is discarded", nil)
 					} else if flowsToExit(ev) {
-						ef.r.OK("errdrop", key, pos, "error flows to a return/panic of "+name)
+						if lost := errLostOnPath(fn, x, ev); lost != token.NoPos {
+							ef.r.FailC("errdrop", key, []string{"path"}, pos, "the error of "+what+" reaches a return of "+name+", but the return at "+ef.w.Pos(lost)+" can be reached with the error set and returns something else (nil or another error): on that path the fault is swallowed", nil)
+						} else {
+							ef.r.OK("errdrop", key, pos, "error flows to a return/panic of "+name+" on every path on which it can be set")
+						}
 					} else if errIndex(fn.Signature) < 0 && fn.Signature.Results().Len() == 0 && hasNilTest(ev) && fn.Parent() != nil {
 						// closures without results that test the error (e.g. helper lambdas) are checked by their parent's discipline
 						ef.r.Fail("errdrop", key, pos, "error result of "+what+" is tested but never reported by "+name, nil)
@@ -624,5 +628,282 @@ func RunSortedBeforeIndexed(w *World, r *Report, fns []*ssa.Function) {
 			}
 			return true
 		})
+	}
+}
+
+// ---- must-flow: the error is reported on EVERY path on which it can be non-nil
+//
+// flowsToExit shows that the error value can reach a return; that accepts
+// `_, err := w.Write(b); if quiet { return nil }; return err`.  errLostOnPath
+// looks for a return that is reachable from the call without crossing an
+// edge on which the error is known to be nil (or equal to a sentinel such as
+// io.EOF, or matched by errors.Is/As) and that returns something not derived
+// from the error and not a freshly made error.
+
+func errDerived(e ssa.Value) map[ssa.Value]bool {
+	d := map[ssa.Value]bool{}
+	var visit func(v ssa.Value)
+	visit = func(v ssa.Value) {
+		if d[v] {
+			return
+		}
+		d[v] = true
+		refs := v.Referrers()
+		if refs == nil {
+			return
+		}
+		for _, ref := range *refs {
+			switch x := ref.(type) {
+			case *ssa.Phi:
+				visit(x)
+			case *ssa.MakeInterface:
+				visit(x)
+			case *ssa.ChangeInterface:
+				visit(x)
+			case *ssa.ChangeType:
+				visit(x)
+			case *ssa.TypeAssert:
+				visit(x)
+			case *ssa.Extract:
+				visit(x)
+			case *ssa.Slice:
+				visit(x)
+			case *ssa.IndexAddr:
+				visit(x)
+			case *ssa.Store:
+				if x.Val == v {
+					visit(x.Addr)
+					if ia, ok := x.Addr.(*ssa.IndexAddr); ok {
+						visit(ia.X)
+					}
+				}
+			case *ssa.UnOp:
+				if x.Op == token.MUL {
+					visit(x)
+				}
+			case *ssa.Call:
+				if errIndex(x.Call.Signature()) >= 0 || isErrorType(x.Type()) {
+					visit(x)
+				}
+			}
+		}
+		if _, ok := v.(*ssa.Alloc); ok {
+			for _, ref := range *refs {
+				if u, ok := ref.(*ssa.UnOp); ok && u.Op == token.MUL {
+					visit(u)
+				}
+			}
+		}
+	}
+	visit(e)
+	return d
+}
+
+// errLostOnPath returns the position of a return that drops the error e of
+// the call instruction call (in fn) on some path, or token.NoPos.
+func errLostOnPath(fn *ssa.Function, call ssa.Instruction, e ssa.Value) token.Pos {
+	ri := errIndex(fn.Signature)
+	if ri < 0 {
+		return token.NoPos
+	}
+	d := errDerived(e)
+	// escapes into memory that outlives the function or into a closure: handled elsewhere
+	for v := range d {
+		if refs := v.Referrers(); refs != nil {
+			for _, ref := range *refs {
+				switch x := ref.(type) {
+				case *ssa.MakeClosure:
+					return token.NoPos
+				case *ssa.Store:
+					if x.Val == v {
+						switch x.Addr.(type) {
+						case *ssa.FieldAddr, *ssa.Global, *ssa.FreeVar:
+							return token.NoPos // sticky-error idiom
+						}
+					}
+				case *ssa.Defer, *ssa.Go:
+					return token.NoPos
+				}
+			}
+		}
+		if al, ok := v.(*ssa.Alloc); ok && al.Heap {
+			// a named result read by a deferred function, or a cell captured by a closure
+			return token.NoPos
+		}
+	}
+	// edges on which the error is known to be absent or recognised
+	handledEdge := func(b *ssa.BasicBlock, si int) bool {
+		if len(b.Instrs) == 0 {
+			return false
+		}
+		ifi, ok := b.Instrs[len(b.Instrs)-1].(*ssa.If)
+		if !ok {
+			return false
+		}
+		switch c := ifi.Cond.(type) {
+		case *ssa.BinOp:
+			if c.Op != token.EQL && c.Op != token.NEQ {
+				return false
+			}
+			if !d[c.X] && !d[c.Y] {
+				return false
+			}
+			// equal side
+			return (c.Op == token.EQL && si == 0) || (c.Op == token.NEQ && si == 1)
+		case *ssa.Call:
+			// errors.Is / errors.As / a predicate of the module on the error (header.IsMissing):
+			// the error is recognised on the true side
+			if bt, ok := c.Type().Underlying().(*types.Basic); ok && bt.Kind() == types.Bool {
+				for _, a := range c.Call.Args {
+					if d[a] {
+						return si == 0
+					}
+				}
+			}
+		case *ssa.UnOp:
+			if c.Op == token.NOT {
+				if cc, ok := c.X.(*ssa.Call); ok {
+					if bt, ok := cc.Type().Underlying().(*types.Basic); ok && bt.Kind() == types.Bool {
+						for _, a := range cc.Call.Args {
+							if d[a] {
+								return si == 1
+							}
+						}
+					}
+				}
+			}
+		case *ssa.Extract:
+			// v, ok := err.(T)
+			if ta, ok := c.Tuple.(*ssa.TypeAssert); ok && d[ta.X] && c.Index == 1 {
+				return si == 0
+			}
+		}
+		return false
+	}
+	start := call.Block()
+	reach := map[*ssa.BasicBlock]bool{}
+	var work []*ssa.BasicBlock
+	push := func(from *ssa.BasicBlock) {
+		for si, s := range from.Succs {
+			if handledEdge(from, si) || reach[s] || s == start {
+				continue
+			}
+			reach[s] = true
+			work = append(work, s)
+		}
+	}
+	push(start)
+	for len(work) > 0 {
+		b := work[len(work)-1]
+		work = work[:len(work)-1]
+		push(b)
+	}
+	inScope := func(b *ssa.BasicBlock) bool { return b == start || reach[b] }
+	definitelyNonNil := func(v ssa.Value) bool {
+		switch x := v.(type) {
+		case *ssa.MakeInterface:
+			return true
+		case *ssa.Call:
+			if cal := x.Call.StaticCallee(); cal != nil && cal.Pkg != nil {
+				p := cal.Pkg.Pkg.Path()
+				if (p == "errors" && cal.Name() == "New") || (p == "fmt" && cal.Name() == "Errorf") {
+					return true
+				}
+			}
+		}
+		return false
+	}
+	seen := map[ssa.Value]bool{}
+	var okVal func(v ssa.Value) bool
+	okVal = func(v ssa.Value) bool {
+		if ph, isPhi := v.(*ssa.Phi); isPhi {
+			if seen[ph] {
+				return true
+			}
+			seen[ph] = true
+			for i, ev := range ph.Edges {
+				if !inScope(ph.Block().Preds[i]) {
+					continue
+				}
+				// the edge itself may be a handled one
+				pred := ph.Block().Preds[i]
+				hi := -1
+				for si, s := range pred.Succs {
+					if s == ph.Block() {
+						hi = si
+					}
+				}
+				if hi >= 0 && handledEdge(pred, hi) {
+					continue
+				}
+				if !okVal(ev) {
+					return false
+				}
+			}
+			return true
+		}
+		if d[v] {
+			return true
+		}
+		return definitelyNonNil(v)
+	}
+	check := func(b *ssa.BasicBlock) token.Pos {
+		if len(b.Instrs) == 0 {
+			return token.NoPos
+		}
+		ret, ok := b.Instrs[len(b.Instrs)-1].(*ssa.Return)
+		if !ok || ri >= len(ret.Results) {
+			return token.NoPos
+		}
+		if okVal(ret.Results[ri]) {
+			return token.NoPos
+		}
+		if ret.Pos().IsValid() {
+			return ret.Pos()
+		}
+		return fn.Pos()
+	}
+	if p := check(start); p != token.NoPos {
+		// the call's own block returns: only relevant when the return comes after the call
+		return p
+	}
+	var blocks []*ssa.BasicBlock
+	for b := range reach {
+		blocks = append(blocks, b)
+	}
+	sort.Slice(blocks, func(i, j int) bool { return blocks[i].Index < blocks[j].Index })
+	for _, b := range blocks {
+		if p := check(b); p != token.NoPos {
+			return p
+		}
+	}
+	return token.NoPos
+}
+
+// condNilOnError: every return of the function with a non-nil error returns
+// a nil first result (so a caller that copies the result gets zero bytes
+// whenever an error is reported).
+func condNilOnError(w *World, name string) func() (bool, string) {
+	return func() (bool, string) {
+		fn := w.Func(name)
+		if fn == nil {
+			return false, name + " not found"
+		}
+		for _, b := range fn.Blocks {
+			if len(b.Instrs) == 0 {
+				continue
+			}
+			ret, ok := b.Instrs[len(b.Instrs)-1].(*ssa.Return)
+			if !ok || len(ret.Results) != 2 {
+				continue
+			}
+			if c, ok := ret.Results[1].(*ssa.Const); ok && c.Value == nil {
+				continue
+			}
+			if c, ok := ret.Results[0].(*ssa.Const); !ok || c.Value != nil {
+				return false, fmt.Sprintf("%s returns data together with an error at %s", name, w.Pos(ret.Pos()))
+			}
+		}
+		return true, "every error return of " + name + " carries a nil slice"
 	}
 }
